@@ -303,9 +303,9 @@ theorem shard_multi_key_del_hands_back_last_delta :
         (.del [kA, kB])).2.2).map (·.1) = some kB := by
   decide
 
-/-- `MSET a w` on node 0 of two: nothing is sent, so everything sent is delivered, yet node 1 does
-    not serve `a` -/
-def nonReplicatedClusterRun : List GEv := [.client 0 (.mset [(kA, [119])])]
+/-- `SETNX a w` on node 0 of two (a writer the recorder ignores): nothing is sent, so everything
+    sent is delivered, yet node 1 does not serve `a` -/
+def nonReplicatedClusterRun : List GEv := [.client 0 (.setnx kA [119])]
 
 theorem non_replicated_cluster_counterexample :
     ¬ GSupported (GCluster.init 2 false) nonReplicatedClusterRun ∧
@@ -325,21 +325,29 @@ theorem C06_converged_reads_equal_false : ¬ C06_converged_reads_equal := fun h 
   non_replicated_cluster_counterexample.2.2.2
     (h 2 false nonReplicatedClusterRun kA non_replicated_cluster_counterexample.2.1)
 
-/-! ## the repaired front end (fix prepared on fixes-glue-s3): MSET is one SET per pair -/
+/-! ## the front end since e29f660: MSET is one SET per pair -/
 
-/-- with `splitCmdFixed` an MSET is never outside the fragment: its step keeps every node's
-    invariant (served = replicated) and is a run of layer-1 steps, one delta per pair -/
+/-- an MSET is never outside the fragment: its step keeps every node's invariant (served =
+    replicated) and is a run of layer-1 steps, one delta per pair -/
 theorem mset_split_step_ok (g : GCluster) (h : AllInv g) (i : Nat) (kvs : List (Nat × BS)) :
-    AllInv (g.stepFixed (.client i (.mset kvs))) ∧
-    ∃ evs : List Ev, (g.stepFixed (.client i (.mset kvs))).proj = g.proj.run evs :=
-  step_fixed_ok h (.client i (.mset kvs)) (fun hne => absurd rfl (hne i kvs))
+    AllInv (g.step (.client i (.mset kvs))) ∧
+    ∃ evs : List Ev, (g.step (.client i (.mset kvs))).proj = g.proj.run evs := by
+  simp only [GCluster.step, splitCmd]
+  exact fold_single_sets i kvs g h
 
-/-- the history of `non_replicated_cluster_counterexample` on the repaired front end: the MSET
-    ships its pair, after delivery both nodes serve it -/
+/-- the MSET ships its pairs; after delivery both nodes serve them -/
 theorem mset_split_replicates :
-    let g := (GCluster.init 2 false).runFixed [.client 0 (.mset [(kA, [119]), (kB, [120])]), .deliver 1 0, .deliver 1 1]
+    let g := (GCluster.init 2 false).run [.client 0 (.mset [(kA, [119]), (kB, [120])]), .deliver 1 0, .deliver 1 1]
     g.sent.length = 2 ∧ Delivered g.proj kA ∧ Delivered g.proj kB ∧
     (∀ ni ∈ g.nodes, ∀ nj ∈ g.nodes, ReadsEqual ni nj kA ∧ ReadsEqual ni nj kB) := by
+  decide
+
+/-- **fixed defect C06:front-end:multi-key-routed-by-first-key** (e29f660): before the repair the
+    MSET went whole to one shard actor, which does not record it — nothing was shipped, the peer
+    never served the pair -/
+theorem mset_unsplit_counterexample :
+    let g := (GCluster.init 2 false).runPre [.client 0 (.mset [(kA, [119])])]
+    g.sent = [] ∧ ¬ (∀ ni ∈ g.nodes, ∀ nj ∈ g.nodes, ReadsEqual ni nj kA) := by
   decide
 
 /-! ## non-vacuity -/
